@@ -20,7 +20,7 @@ Rec == ndJsonDeserialize(IOEnv.TRACE)
 N   == Len(Rec)
 Starts == {i \in 1..N : Rec[i].e = "crun"}
 
-ASSUME TLCSet(1, {}) /\ TLCSet(2, {})
+ASSUME TLCSet(1, {}) /\ TLCSet(2, {}) /\ TLCSet(3, {})
 
 VARIABLES l, h, cs, pend, lind
 vars == <<l, h, cs, pend, lind>>
@@ -71,11 +71,41 @@ BoundOK(e) == Rec[h].policy # "random" \/ e.bytes <= Rec[h].L + Rec[h].slack
 (* ... and, with nothing in flight, the accounted bytes are exactly the stored bytes (C15) - otherwise the  *)
 (* limit enforced from now on is off by the difference (C14)                                              *)
 AcctOK(e) == Rec[h].policy # "random" \/ e.usage = NatToStr(e.bytes)
+(***************************************************************************)
+(* Equivalence to a sequential execution OF THE IMPLEMENTATION (C03, C04:  *)
+(* "every concurrent history is equivalent to a sequential one").  The     *)
+(* contract is deliberately permissive where the properties are silent     *)
+(* (e.g. the deadline of an item appended to after a delayed flush), so a  *)
+(* history can be linearizable against it and still be something no        *)
+(* one-at-a-time execution of this server produces.  The driver therefore  *)
+(* also runs every one-at-a-time order of the program's commands on a      *)
+(* fresh store and records what the clients see (`serial` of the program   *)
+(* line: outcome signature -> orders producing it); a concurrent history   *)
+(* must show one of these outcomes, for an order that respects real time:  *)
+(* a command that returned before another was invoked precedes it.         *)
+(***************************************************************************)
+ProgLine(hh) == LET S == {i \in 1..hh : Rec[i].e = "cprog"} IN
+                IF S = {} THEN 0 ELSE CHOOSE i \in S : \A j \in S : j <= i
+HasSerial(hh) == LET pl == ProgLine(hh) IN pl > 0 /\ Rec[pl].id = Rec[hh].prog /\ "serial" \in DOMAIN Rec[pl]
+(* line of the k-th invocation / return of client c in the history that starts at hh and ends at line e *)
+EvLines(hh, e, c, what) == SelectSeq([i \in 1..(e - hh) |-> hh + i], LAMBDA i : Rec[i].e = what /\ Rec[i].c = c)
+Occ(order, i) == Cardinality({p \in 1..i : order[p] = order[i]})
+RealTimeOK(order, hh, e) ==
+    \A i \in 1..Len(order) : \A j \in (i + 1)..Len(order) :
+        LET invI == EvLines(hh, e, order[i], "inv")[Occ(order, i)]
+            retJ == EvLines(hh, e, order[j], "ret")[Occ(order, j)]
+        IN ~(retJ < invI)
+SerialOK(fin, hh, e) ==
+    \/ ~HasSerial(hh) \/ "sig" \notin DOMAIN fin
+    \/ \E x \in SeqRange(Rec[ProgLine(hh)].serial) :
+          /\ x.sig = fin.sig
+          /\ \E o \in SeqRange(x.orders) : RealTimeOK(o, hh, e)
+
 Final == /\ InHist /\ E.e = "final" /\ DOMAIN pend = {} /\ lind = {}
          /\ E.outcome = "Complete"
          /\ (Relaxed \/ ReadsOK(cs, E.gets, 1))
          /\ BoundOK(E) /\ AcctOK(E)
-         /\ TLCSet(1, TLCGet(1) \cup {h})
+         /\ IF Relaxed \/ SerialOK(E, h, l) THEN TLCSet(1, TLCGet(1) \cup {h}) ELSE TLCSet(3, TLCGet(3) \cup {h})
          \* conformance to the MemcConc model (replayed TLC schedules): same steps in the same order, same statuses
          /\ IF "expect" \in DOMAIN Rec[h] /\ ~Conforms(Rec[h].expect, E, h) THEN TLCSet(2, TLCGet(2) \cup {h}) ELSE TRUE
          /\ l' = l + 1 /\ UNCHANGED <<h, cs, pend, lind>>
@@ -83,6 +113,6 @@ Final == /\ InHist /\ E.e = "final" /\ DOMAIN pend = {} /\ lind = {}
 Next == Setup \/ Tick1 \/ Invoke \/ Return \/ Final \/ \E c \in DOMAIN pend : Lin(c)
 Spec == Init /\ [][Next]_vars
 
-Report == PrintT("RESULT " \o ToJson([lines |-> N, histories |-> Cardinality(Starts), accepted |-> TLCGet(1), drift |-> TLCGet(2),
+Report == PrintT("RESULT " \o ToJson([lines |-> N, histories |-> Cardinality(Starts), accepted |-> TLCGet(1), drift |-> TLCGet(2), nonserial |-> TLCGet(3) \ TLCGet(1),
                                       violations |-> <<>>, coverage |-> <<>>, notes |-> <<>>]))
 =============================================================================
